@@ -39,6 +39,11 @@ CHECKS = {
     text="The property-level operators FirstAccepted / MpSize / the multi-threshold rule are evaluated by TLC on recorded histories {rdp_fixed(k)}_k with bit-exact acceptance classes of compute_global_cost; thresholds are harvested from chain costs (ties). MC_Fixed proves the variants return exactly the chain member the property names for every oracle.",
     note="n<=24 for recorded chains; min_point_rdp's default configuration assumed as in the code's signature",
     ref="5/C06"),
+ "C15": dict(
+    technique="TLC model checking of the cost-cache history machine (GlobalCost.tla: CacheSound/CacheDomain/divisor/perfect fit; negative instances keyed-by-left and metric switch) + TLC-generated query histories replayed with shared vs fresh caches + TLC trace validation of recorded random histories (Trace_GlobalCost)",
+    text="The cache is modelled as key -> identity of the computation that produced the entry; TLC shows every value read is what a fresh computation would produce for all histories of <=3 queries (n<=6, 5 metrics) and emits each history with the structure of every answer (contributing segments, divisor n+|S|-2, normalisation). The harness replays each history on 3 curves with one shared dict and with fresh caches (bit-identity), compares values with the exact-fraction evaluation of the definition, global RMSE with point-wise interpolation RMSE and MIP with its median definition; random longer histories on float curves are consumed query by query by Trace_GlobalCost.",
+    note="real arithmetic of the definition is evaluated by harness/costdef.py (trusted, exact fractions, eps exact); 0/eps ill-conditioned points classed ambiguous; dict key layout mismatches are DRIFT notes, not violations",
+    ref="5/C15"),
 }
 
 PENDING = {}
